@@ -149,7 +149,7 @@ func c16Layouts(c *Ctx, kinds []string, limit int) [][][]int {
 }
 
 func checkC16(c *Ctx) {
-	c.Rule = "packages = seeded random packages (struct types, functions, methods, constants built from earlier constants, variable initialisers with visible side effects, a package function named like a builtin (print / println), locals and parameters shadowing package-level names); layouts = for packages with <= 7 declarations EVERY state reachable in DeclOrder.tla (all permutations of hoistable declarations x all splits into <= 3 files with the fixed items in order; a deterministic sample of them is loaded in the quick tier), for larger packages layouts sampled by TLC simulation; distinct_nontrivial = distinct (package, layout) pairs loaded"
+	c.Rule = "packages = seeded random packages (struct types, functions, methods, constants built from earlier constants, variable initialisers with visible side effects, a package function named like a builtin (print / println), locals and parameters shadowing package-level names); layouts = for packages with <= 7 declarations EVERY state reachable in DeclOrder.tla (all permutations of hoistable declarations x all splits into <= 3 files with the fixed items in order; a deterministic sample of them is loaded in the quick tier), for larger packages layouts sampled by TLC simulation; each layout is loaded as the top-level package or as a package imported by it (alternating); distinct_nontrivial = distinct (package, layout) pairs loaded"
 	c.Assumptions = []string{"MiniGo.tla gives the meaning of the canonical form and is calibrated against the Go toolchain on it", "file names are chosen so that their sorted order is the layout's file order"}
 	r := rand.New(rand.NewSource(c.Seed))
 	type pkg struct {
@@ -214,6 +214,17 @@ func checkC16(c *Ctx) {
 				files["main/"+names[fi]] = hdr + sb.String()
 				fi++
 			}
+			// every second layout is loaded as an IMPORTED package: the same files under p/ with the
+			// package clause p, reached from a main package that only calls p.Main
+			entry := "top-level package"
+			if li%2 == 1 {
+				entry = "imported package"
+				imp := map[string]string{"main/main.go": "package main\n\nimport \"p\"\n\nfunc Main() {\n\tp.Main()\n}\n"}
+				for name, src := range files {
+					imp["p/"+strings.TrimPrefix(name, "main/")] = strings.Replace(src, "package main\n", "package p\n", 1)
+				}
+				files = imp
+			}
 			res := runProgram(files, "main", "main.Main", 0, true, 400000)
 			c.Evaluations++
 			bad := ""
@@ -226,7 +237,7 @@ func checkC16(c *Ctx) {
 				bad = fmt.Sprintf("output differs from the canonical form's: got %q want %q", clip(res.Stdout, 200), clip(want, 200))
 			}
 			if bad != "" {
-				c.violate(hashKey(fmt.Sprint(files)), fmt.Sprintf("package %s layout %v: %s", pk.p.ID, lay, bad), map[string]any{"files": files, "layout": lay, "expected_output": want, "observed_output": res.Stdout, "observed_error": res.ErrString()})
+				c.violate(hashKey(fmt.Sprint(files)), fmt.Sprintf("package %s layout %v (loaded as %s): %s", pk.p.ID, lay, entry, bad), map[string]any{"files": files, "layout": lay, "expected_output": want, "observed_output": res.Stdout, "observed_error": res.ErrString()})
 				break
 			}
 			c.TracesVsImpl++
